@@ -296,7 +296,7 @@ func nilElementRule(o *Ob) {
 		for _, r := range *refs {
 			switch x := r.(type) {
 			case *ssa.FieldAddr:
-				if !e.OnlyUnder(x, nilLit.Neg(), LitM{"", func(l Lit) bool { return !l.Pos && nilLit.F(Lit{l.Atom, true}) }}) {
+				if !e.OnlyUnder(x, nilLit.Neg(), LitM{"", func(l Lit) bool { return !l.Pos && nilLit.F(Lit{Atom: l.Atom, Pos: true}) }}) {
 					return true, x
 				}
 			}
@@ -508,7 +508,7 @@ func secretTypingRule(o *Ob) {
 					continue
 				}
 				n++
-				ts := short(types.TypeString(base.Type(), nil))
+				ts := typeStr(base.Type())
 				key := short(p.PkgPath) + "." + name + "." + base.Name()
 				o.SiteS(key + " : " + ts)
 				if why, ok := exempt[key]; ok {
